@@ -780,3 +780,22 @@ def treelock_projection(trace, job):
         elif sk == "unpark":
             ev.append({"e": "unpark", "t": t, "u": e.get("u", -1) + 1})
     return {"id": trace["id"], "nbins": max(len(bins), 1), "nthreads": nth, "finished": 1 if trace.get("outcome") == "Done" else 0, "ev": ev}
+
+
+def growth_start_projection(trace, job):
+    """(concurrent runs) which public operation a thread was executing when it started a resize -> `start` events
+    for Trace_Capacity"""
+    cur = {}
+    ev = []
+    is_set = job.get("kind") == "set"
+    for e in trace["ev"]:
+        k = e.get("e")
+        if k == "call":
+            cur[e["t"]] = SET_RENAME.get(e["op"], e["op"]) if is_set else e["op"]
+        elif k == "ret":
+            cur.pop(e["t"], None)
+        elif k == "site" and e.get("s") == 1:
+            op = cur.get(e["t"])
+            if op is not None:
+                ev.append({"e": "start", "op": "insert" if (is_set and op in ("insert", "try_insert")) else op, "t": e["t"]})
+    return {"id": trace["id"], "ev": ev}
